@@ -80,6 +80,18 @@ def pClsChar : Str → Option (Char × Str)
   | c :: rest => if c = '[' || c = ']' || c = '\\' then none else some (c, rest)
   | [] => none
 
+/-- After the class atom `a`: a range `a-b`, a trailing `-`, or the single char; returns the items (most recent first)
+and the rest of the input. -/
+def clsRange (a : Char) (rest1 : Str) : Option (List (Char × Char) × Str) :=
+  match rest1 with
+  | '-' :: ']' :: _ => some ([('-', '-'), (a, a)], rest1.drop 1)
+  | '-' :: '-' :: _ => none
+  | '-' :: rest2 =>
+    match pClsChar rest2 with
+    | none => none
+    | some (b, rest3) => if a ≤ b then some ([(a, b)], rest3) else none
+  | _ => some ([(a, a)], rest1)
+
 /-- Items of a class up to the closing `]`.  Set operators (`&&`, `--`, `~~`) and nested classes are outside the
 fragment. -/
 def pClsItems : Nat → Str → List (Char × Char) → Bool → Option (List (Char × Char) × Str)
@@ -94,24 +106,20 @@ def pClsItems : Nat → Str → List (Char × Char) → Bool → Option (List (C
       | none =>
         match pClsChar inp with
         | none => none
-        | some (a, rest1) => range fuel a rest1 acc
+        | some (a, rest1) =>
+          match clsRange a rest1 with
+          | none => none
+          | some (its, rest') => pClsItems fuel rest' (its ++ acc) false
     | '&' :: '&' :: _ => none
     | '-' :: '-' :: _ => none
     | '~' :: '~' :: _ => none
     | _ =>
       match pClsChar inp with
       | none => none
-      | some (a, rest1) => range fuel a rest1 acc
-where
-  range (fuel : Nat) (a : Char) (rest1 : Str) (acc : List (Char × Char)) : Option (List (Char × Char) × Str) :=
-    match rest1 with
-    | '-' :: ']' :: _ => pClsItems fuel (rest1.drop 1) (('-', '-') :: (a, a) :: acc) false
-    | '-' :: '-' :: _ => none
-    | '-' :: rest2 =>
-      match pClsChar rest2 with
-      | none => none
-      | some (b, rest3) => if a ≤ b then pClsItems fuel rest3 ((a, b) :: acc) false else none
-    | _ => pClsItems fuel rest1 ((a, a) :: acc) false
+      | some (a, rest1) =>
+        match clsRange a rest1 with
+        | none => none
+        | some (its, rest') => pClsItems fuel rest' (its ++ acc) false
 
 /-- After `[`. -/
 def pCls (inp : Str) : Option (Rx × Str) :=
